@@ -281,13 +281,15 @@ def run(rep, ctx):
                     os.environ[k] = v
     # ---- listed known findings: replayed every run, reported while they still fail
     for kf in load_known_findings('C14'):
-        inp = kf['input']
+        inp = dict(kf['input'])
+        if 'a_text_escaped' in inp:          # code points a JSON file in UTF-8 cannot hold (lone surrogates) are kept as Python escapes
+            inp['a_text'] = inp['a_text_escaped'].encode('ascii').decode('unicode_escape')
         try:
             r = h.html_diff_render(inp['a_text'], inp['b_text'], include=inp['include'])
             f = shape_failures(inp['a_text'], inp['b_text'], inp['include'], r)
         except Exception as e:  # noqa
             f = ['raised %s' % type(e).__name__]
-        rep.count(('known', inp['a_text'], inp['b_text']), True)
+        rep.count(('known', kf['id']), True)
         if f:
             rep.known_finding(kf['what'])
         else:
